@@ -3,6 +3,7 @@ import UtilModel.RefCount.ConsRelA
 import UtilModel.RefCount.ConsRelB
 import UtilModel.RefCount.ConsRelC
 import UtilModel.RefCount.ConsRelD
+import UtilModel.RefCount.WrcProofs
 open UtilModel UtilModel.RefCount UtilModel.RefCount.Cons
 #print axioms UtilModel.accepts_sound
 #print axioms UtilModel.accepted_satisfies
@@ -28,3 +29,7 @@ open UtilModel UtilModel.RefCount UtilModel.RefCount.Cons
 #print axioms RefCount.Cons.c10_fires_obs
 #print axioms RefCount.Cons.c10_alive_obs
 #print axioms RefCount.Cons.c10_obs
+#print axioms RefCount.Wrc.sim_step
+#print axioms RefCount.Wrc.wrc_obs
+#print axioms UtilModel.C10_accepted_wrc
+#print axioms UtilModel.reject_sound_wrc
